@@ -2,6 +2,7 @@ package formatter
 
 import (
 	"strings"
+	"unicode"
 	"unicode/utf8"
 
 	"go.lsp.dev/protocol"
@@ -265,13 +266,13 @@ func calculateAmountCostLen(posting *ast.Posting, commodityFormats map[string]Nu
 	length := 0
 
 	if posting.Amount.Commodity.Position == ast.CommodityLeft {
-		length += utf8.RuneCountInString(posting.Amount.Commodity.Symbol)
+		length += utf8.RuneCountInString(commoditySymbolText(posting.Amount.Commodity.Symbol))
 	}
 
 	length += utf8.RuneCountInString(formatAmountQuantity(posting.Amount, commodityFormats))
 
 	if posting.Amount.Commodity.Position == ast.CommodityRight {
-		length += 1 + utf8.RuneCountInString(posting.Amount.Commodity.Symbol)
+		length += 1 + utf8.RuneCountInString(commoditySymbolText(posting.Amount.Commodity.Symbol))
 	}
 
 	if posting.Cost != nil {
@@ -281,11 +282,11 @@ func calculateAmountCostLen(posting *ast.Posting, commodityFormats map[string]Nu
 			length += 3 // " @ "
 		}
 		if posting.Cost.Amount.Commodity.Position == ast.CommodityLeft {
-			length += utf8.RuneCountInString(posting.Cost.Amount.Commodity.Symbol)
+			length += utf8.RuneCountInString(commoditySymbolText(posting.Cost.Amount.Commodity.Symbol))
 		}
 		length += utf8.RuneCountInString(formatAmountQuantity(&posting.Cost.Amount, commodityFormats))
 		if posting.Cost.Amount.Commodity.Position == ast.CommodityRight {
-			length += 1 + utf8.RuneCountInString(posting.Cost.Amount.Commodity.Symbol)
+			length += 1 + utf8.RuneCountInString(commoditySymbolText(posting.Cost.Amount.Commodity.Symbol))
 		}
 	}
 
@@ -376,23 +377,36 @@ func formatPostingWithOpts(posting *ast.Posting, alignment AlignmentInfo, commod
 
 func writeAmountWithSign(sb *strings.Builder, amount *ast.Amount, commodityFormats map[string]NumberFormat) {
 	qty := formatAmountQuantity(amount, commodityFormats)
+	symbol := commoditySymbolText(amount.Commodity.Symbol)
 
 	if amount.Commodity.Position == ast.CommodityLeft {
 		if amount.SignBeforeCommodity && len(qty) > 0 && (qty[0] == '-' || qty[0] == '+') {
 			sb.WriteByte(qty[0])
-			sb.WriteString(amount.Commodity.Symbol)
+			sb.WriteString(symbol)
 			sb.WriteString(qty[1:])
 		} else {
-			sb.WriteString(amount.Commodity.Symbol)
+			sb.WriteString(symbol)
 			sb.WriteString(qty)
 		}
 	} else {
 		sb.WriteString(qty)
-		if amount.Commodity.Symbol != "" {
+		if symbol != "" {
 			sb.WriteString(" ")
-			sb.WriteString(amount.Commodity.Symbol)
+			sb.WriteString(symbol)
 		}
 	}
+}
+
+// commoditySymbolText is the symbol as it has to be written: a symbol with anything but letters, digits and currency
+// signs in it (a blank, say), or one that starts with a digit, only reads back as one symbol in double quotes.
+func commoditySymbolText(symbol string) string {
+	for i, r := range symbol {
+		if unicode.IsLetter(r) || unicode.Is(unicode.Sc, r) || (i > 0 && unicode.IsDigit(r)) {
+			continue
+		}
+		return "\"" + symbol + "\""
+	}
+	return symbol
 }
 
 // formatAmountQuantity returns formatted quantity string.
